@@ -39,6 +39,9 @@ CLAIMS = {
  "C16": dict(level="other", ref="7/C16",
    text="Deductive part, proved for all inputs: the exception-safety obligations (raises_only) of the functions on the reference-resolution path - Register.resolve_qubit / resolve_size / __getitem__, NamedQubit.__init__ / resolve_qubit, Parameter.validate raise nothing but JaqalError, exactly under the stated conditions; JaqalParser.error / raise_error / JaqalLexer.error always raise JaqalParseError and JaqalParseError.__init__ stores the position it is given; the lexer defines an error handler (AST scan). 'Whatever text' and 'no sticky state' are whole-input / whole-history claims: exercised by the bounded stand-in (grammar-guided mutants, 5 s watchdog, repeated processing with other texts in between).",
    note="Not reached: termination and internal state of sly; import-state configuration of _import.py; Builder.* functions are not under contract (bounded only)."),
+ "C11": dict(level="other", ref="7/C11",
+   text="Deductive part: frame conditions. Every store, item store and mutating container method executed by a function under contract must hit an object allocated in that activation or something in its `modifies` clause, else the obligation frame@L fails. Proved (modifies = nothing, resp. only the visitor's own scratch field) for 14 functions of the passes: SubcircuitExpander.{visit_Circuit, visit_default, visit_LoopStatement, visit_BlockStatement, process_subcircuit, process_non_subcircuit_block}, MacroExpander.{visit_Circuit, visit_LoopStatement, visit_GateStatement, visit_default}, LetFiller.{visit_default, visit_LoopStatement, visit_BlockStatement} (+RegisterVisitor), including the fact that the new circuit SHARES the input's native gate table (so a store into it is a store into the input). Not under contract: fill_in_map, unit timing, used-qubit analysis, generator, emulator, output parsing, the builder's rebuild - for these and for 'any number of times, any order' the bounded stand-in compares deep snapshots and fresh-copy results over sequences of entry points.",
+   note="Assumed: normalize_native_gates returns a non-empty dict argument unchanged (assumed contract read off the code); writes inside numpy / sly do not touch circuits."),
 }
 NA_REASON = "check not built yet in this round (work in progress; DESIGN.md section 7 gives the planned contracts)"
 
